@@ -74,6 +74,7 @@ func (Engine) Generate(r *simcore.RNG, tier string, idx int) *simcore.Plan {
 	p.Config["keep_s"] = []int64{90, 600, 600, 3600, 3600, 21600, 21600, 172800}[r.Intn(8)]
 	p.Config["epoch_s"] = []int64{60, 300, 1800, 7200}[r.Intn(4)]
 	p.Config["prune_limit"] = []int64{1, 2, 3, 5, 200}[r.Intn(5)]
+	p.Config["subms"] = int64(r.Intn(2)) // block times with a varying sub-millisecond part
 	faults := idx%2 == 1
 	unit := r.Chance(0.12) // allow a pool whose price is exactly one
 	mkbal := func() simcore.Step {
@@ -303,6 +304,8 @@ type world struct {
 	run    *simcore.Run
 	n      *simchain.Node
 	keepMs int64
+	subMs  bool                // block times carry a varying sub-millisecond part
+	exact  map[int64]time.Time // millisecond of a block -> its exact header time
 	pools  []*pool
 	poss   []position
 	pq     []pquery
@@ -311,6 +314,15 @@ type world struct {
 }
 
 func msT(ms int64) time.Time { return simchain.GenesisTime.Add(time.Duration(ms) * time.Millisecond) }
+
+// tAt is the query time for a millisecond of the model: the exact header time when a block was produced in
+// that millisecond (the model means "at that block"), the whole millisecond otherwise.
+func (w *world) tAt(ms int64) time.Time {
+	if t, ok := w.exact[ms]; ok {
+		return t
+	}
+	return msT(ms)
+}
 
 func (w *world) now() int64 { return int64(w.n.Time.Sub(simchain.GenesisTime) / time.Millisecond) }
 
@@ -375,7 +387,7 @@ func (Engine) Execute(run *simcore.Run) {
 		cg.Params.IsPermissionlessPoolCreationEnabled = true
 		gs[cltypes.ModuleName] = cdc.MustMarshalJSON(&cg)
 	}})
-	w := &world{run: run, n: n, keepMs: int64(keep / time.Millisecond)}
+	w := &world{run: run, n: n, keepMs: int64(keep / time.Millisecond), subMs: p.Cfg("subms", 0) == 1}
 	if !w.begin(time.Second) {
 		return
 	}
@@ -463,7 +475,14 @@ func (w *world) dt(kind, x int64) time.Duration {
 	if ms < 1 {
 		ms = 1
 	}
-	return time.Duration(ms) * time.Millisecond
+	d := time.Duration(ms) * time.Millisecond
+	if w.subMs {
+		// real block times carry nanoseconds: land on the same millisecond with another sub-millisecond part
+		// (x/twap works on times truncated to milliseconds, and so does the reference)
+		old := int64(w.n.Time.Nanosecond()) % 1_000_000
+		d += time.Duration((x*7919+ms*31+13)%1_000_000 - old)
+	}
+	return d
 }
 
 func (w *world) begin(dt time.Duration) bool {
@@ -473,6 +492,10 @@ func (w *world) begin(dt time.Duration) bool {
 	}
 	w.run.Blocks++
 	w.run.SimNanos += int64(dt)
+	if w.exact == nil {
+		w.exact = map[int64]time.Time{}
+	}
+	w.exact[w.now()] = w.n.Time
 	ei := w.n.App.EpochsKeeper.GetEpochInfo(w.n.Ctx, pruneEpoch)
 	if w.epoch != 0 && ei.CurrentEpoch > w.epoch {
 		w.run.Probe("prune-epoch-ended")
@@ -967,13 +990,13 @@ func (w *world) ask(ctx sdk.Context, geo, toNow bool, id uint64, base, quote str
 	var err error
 	switch {
 	case !geo && !toNow:
-		v, err = k.GetArithmeticTwap(ctx, id, base, quote, msT(s), msT(e))
+		v, err = k.GetArithmeticTwap(ctx, id, base, quote, w.tAt(s), w.tAt(e))
 	case !geo && toNow:
-		v, err = k.GetArithmeticTwapToNow(ctx, id, base, quote, msT(s))
+		v, err = k.GetArithmeticTwapToNow(ctx, id, base, quote, w.tAt(s))
 	case geo && !toNow:
-		v, err = k.GetGeometricTwap(ctx, id, base, quote, msT(s), msT(e))
+		v, err = k.GetGeometricTwap(ctx, id, base, quote, w.tAt(s), w.tAt(e))
 	default:
-		v, err = k.GetGeometricTwapToNow(ctx, id, base, quote, msT(s))
+		v, err = k.GetGeometricTwapToNow(ctx, id, base, quote, w.tAt(s))
 	}
 	a.err = err
 	if !v.IsNil() {
